@@ -539,7 +539,7 @@ impl Property for C16 {
         ]
     }
     fn cases(&self, tier: Tier) -> u64 {
-        tier.pick(160_000, 4_000_000)
+        tier.pick(1_200_000, 12_000_000)
     }
     fn strategy(&self, tier: Tier) -> BoxedStrategy<Case> {
         case_strategy(tier)
